@@ -498,8 +498,8 @@ class SymStr:
         return SymInt(total * sign, bound=base ** len(e))
 
     def to_float(self):
-        """Model of float(str) for short ASCII strings: [ws] [sign] digits [. digits] | . digits [ws]
-        (exponents, inf/nan and '_' are outside the alphabets used by the harnesses)."""
+        """Model of float(str) for short ASCII strings: [ws] [sign] (digits [. digits*] | . digits) [(e|E) [sign] digits] [ws]
+        (inf/nan and '_' are outside the alphabets used by the harnesses); validated against CPython in C12."""
         s = self.strip()
         e = list(s.e)
         if len(e) == 1 and isinstance(e[0], Atom):
@@ -515,25 +515,49 @@ class SymStr:
         if e and decide(ch_in(e[0], (43, 45))):
             neg = decide(ch_eq(e[0], "-"))
             e = e[1:]
-        # split at the first '.'
-        dot = None
-        for i, c in enumerate(e):
-            if decide(ch_eq(c, ".")):
-                dot = i
-                break
-        ip = e if dot is None else e[:dot]
-        fp = [] if dot is None else e[dot + 1:]
+        # mantissa: digits [. digits] | . digits ; then an optional exponent: (e|E) [sign] digits
+        k = 0
+        ip, fp = [], []
+        while k < len(e) and decide(ch_in(e[k], range(48, 58))):
+            ip.append(e[k])
+            k += 1
+        if k < len(e) and decide(ch_eq(e[k], ".")):
+            k += 1
+            while k < len(e) and decide(ch_in(e[k], range(48, 58))):
+                fp.append(e[k])
+                k += 1
         if not ip and not fp:
             raise ValueError("could not convert string to float")
+        exp10 = 0
+        if k < len(e):
+            if not decide(ch_in(e[k], (69, 101))):
+                raise ValueError("could not convert string to float")
+            k += 1
+            eneg = False
+            if k < len(e) and decide(ch_in(e[k], (43, 45))):
+                eneg = decide(ch_eq(e[k], "-"))
+                k += 1
+            ed = []
+            while k < len(e) and decide(ch_in(e[k], range(48, 58))):
+                ed.append(e[k])
+                k += 1
+            if not ed or k < len(e):
+                raise ValueError("could not convert string to float")
+            ev = z3.IntVal(0)
+            for c in ed:
+                ev = ev * 10 + ((c - 48) if _is_term(c) else (ord(c) - 48))
+            exp10 = engine.cur().concretize(ev, limit=101)        # the exponent is enumerated (it is at most two digits here)
+            if eneg:
+                exp10 = -exp10
         num = z3.IntVal(0)
         for c in ip + fp:
-            if not decide(ch_in(c, range(48, 58))):
-                raise ValueError("could not convert string to float")
             num = num * 10 + ((c - 48) if _is_term(c) else (ord(c) - 48))
-        den = 10 ** len(fp)
+        shift = exp10 - len(fp)
         if neg:
             num = -num
-        return SymReal(z3.ToReal(num) / den)
+        if shift >= 0:
+            return SymReal(z3.ToReal(num * (10 ** shift)))
+        return SymReal(z3.ToReal(num) / (10 ** (-shift)))
 
 
 class SymBytes:
